@@ -986,7 +986,8 @@ pub fn match_expression(
                 crate::patterns::PatternMatchSemantics::OptionGuard,
             )?,
         };
-        let passed_guard = match &arm.guard {
+        // the guard is evaluated only after the pattern has bound its variables
+        let passed_guard = matched && match &arm.guard {
             Some(guard) => guard_expression_true(guard, &guard_env, p)?,
             None => true,
         };
@@ -1141,14 +1142,22 @@ fn match_validate_arm_kinds(
                 crate::patterns::PatternMatchSemantics::OptionGuard,
             )?,
         };
-        let passed_guard = match &arm.guard {
-            Some(guard) => guard_expression_true(guard, &arm_env, p)?,
-            None => true,
-        };
-        if !(applicable && passed_guard) {
+        // This is a speculative kind check of arms that were NOT selected: nothing that goes
+        // wrong in them may change the outcome of the match.
+        if !applicable {
             continue;
         }
-        let arm_value = expression(&arm.expression, Some(&arm_env), p)?;
+        let passed_guard = match &arm.guard {
+            Some(guard) => guard_expression_true(guard, &arm_env, p).unwrap_or(false),
+            None => true,
+        };
+        if !passed_guard {
+            continue;
+        }
+        let arm_value = match expression(&arm.expression, Some(&arm_env), p) {
+            Ok(value) => value,
+            Err(_) => continue,
+        };
         let arm_kind = arm_value.kind();
         if arm_kind != *matched_kind {
             return Err(MechError::new(
